@@ -57,11 +57,16 @@ func (o *goSliceObject) setLength(value Value) {
 		// No change needed.
 	case wantInt <= o.value.Cap():
 		// Fits in current capacity.
+		oldLen := o.value.Len()
 		if o.value.CanSet() {
 			o.value.SetLen(wantInt)
 		} else {
 			// A slice that was passed by value is not addressable: reslice the copy held here.
 			o.value = o.value.Slice(0, wantInt)
+		}
+		// Elements that become visible again are new elements, not the ones cut off earlier.
+		for i := oldLen; i < wantInt; i++ {
+			o.value.Index(i).Set(reflect.Zero(o.value.Type().Elem()))
 		}
 	default:
 		// Needs expanding.
